@@ -291,6 +291,20 @@ func Execute(ctx context.Context, st storage.Store, text string, bulk int) ExecR
 type Gen struct {
 	R *rand.Rand
 	B *Blanks
+	// graphs that received data so far (preferred as inputs, so that patterns have solutions)
+	Filled []string
+}
+
+// inputs: mostly graphs known to hold data
+func (g *Gen) inputList() []string {
+	if len(g.Filled) == 0 || g.R.Intn(6) == 0 {
+		return g.graphList(true)
+	}
+	out := []string{g.pick(g.Filled)}
+	if g.R.Intn(4) == 0 {
+		out = append(out, g.pick(Graphs))
+	}
+	return out
 }
 
 var Graphs = []string{"?a", "?b", "?c"}
@@ -396,7 +410,15 @@ func (g *Gen) binding(wb []string, want string) string {
 func (g *Gen) tmplPop(wb []string, decon bool) (VPop, string) {
 	var p VPop
 	var pt, ot string
-	switch g.R.Intn(6) {
+	form := g.R.Intn(6)
+	// a predicate binding / anchor binding of the right kind exists only in some patterns: otherwise mostly a constant
+	if (form == 3 || form == 4) && !has(wb, "?p") && g.R.Intn(6) != 0 {
+		form = g.R.Intn(3)
+	}
+	if form == 5 && !has(wb, "?t") && g.R.Intn(4) != 0 {
+		form = g.R.Intn(3)
+	}
+	switch form {
 	case 0, 1:
 		c := g.constPred()
 		c.ID = c.ID + "2"
@@ -425,6 +447,11 @@ func (g *Gen) tmplPop(wb []string, decon bool) (VPop, string) {
 			ot = "_:v"
 		}
 	case 2:
+		if !has(wb, "?t") && g.R.Intn(4) != 0 {
+			p.OB = g.binding(wb, "?o")
+			ot = p.OB
+			break
+		}
 		p.OID, p.OAB, p.OT = "w", g.binding(wb, "?t"), true
 		ot = fmt.Sprintf("%q@[%s]", p.OID, p.OAB)
 	case 3:
@@ -462,11 +489,11 @@ func (g *Gen) template(wb []string, decon bool) ([]VClause, string) {
 				st = "_:w"
 			}
 		default:
-			c.SB = g.binding(wb, []string{"?s", "?s", "?s", "?o"}[g.R.Intn(4)])
+			c.SB = g.binding(wb, []string{"?s", "?s", "?s", "?s", "?s", "?o"}[g.R.Intn(6)])
 			st = c.SB
 		}
 		np := 1
-		if g.R.Intn(3) == 0 {
+		if g.R.Intn(5) < 2 {
 			np = 2 + g.R.Intn(2)
 		}
 		if decon && g.R.Intn(15) != 0 {
@@ -489,9 +516,17 @@ func (g *Gen) Stmt() VStmt {
 	switch {
 	case k < 8:
 		gs := g.graphList(false)
+		if g.R.Intn(3) == 0 {
+			// a name that already exists / occurs twice in front of a new one: the later names must still be created
+			gs = []string{g.pick(Graphs), g.pick([]string{"?d", "?e"})}
+		}
 		return VStmt{Kind: "create", Gs: gs, Text: "CREATE GRAPH " + strings.Join(gs, ", ") + ";"}
 	case k < 13:
 		gs := g.graphList(true)
+		if g.R.Intn(3) == 0 {
+			// an unknown name in front of an existing one: the later names must still be dropped
+			gs = []string{g.pick([]string{"?z", "?y"}), g.pick(append([]string{"?d", "?e"}, Graphs...))}
+		}
 		return VStmt{Kind: "drop", Gs: gs, Text: "DROP GRAPH " + strings.Join(gs, ", ") + ";"}
 	case k < 38:
 		gs := g.graphList(true)
@@ -502,6 +537,7 @@ func (g *Gen) Stmt() VStmt {
 			ts = append(ts, t)
 			tt = append(tt, g.B.TripleText(t))
 		}
+		g.Filled = append(g.Filled, gs...)
 		return VStmt{Kind: "insert", Gs: gs, Ts: ts, Text: "INSERT DATA INTO " + strings.Join(gs, ", ") + " { " + strings.Join(tt, " . ") + " };"}
 	case k < 48:
 		gs := g.graphList(true)
@@ -516,7 +552,7 @@ func (g *Gen) Stmt() VStmt {
 	case k < 88:
 		add := k < 75
 		pat := patterns[g.R.Intn(len(patterns))]
-		outs, ins := g.graphList(true), g.graphList(true)
+		outs, ins := g.graphList(true), g.inputList()
 		tm, tt := g.template(pat.wb, !add)
 		kw, into := "CONSTRUCT", "INTO"
 		if !add {
